@@ -964,6 +964,18 @@ def d6(ctx: Ctx):
                             # also look after the enclosing if/else that holds the while
                             gp = parents.get(id(par)) if par is not None else None
                             ok_c = fails_inside or after_check
+                            tv = sorted(names_loaded(i_.test))
+                            z = _test_at(i_.test, tv[0], 0) if len(tv) == 1 else None
+                            o1 = _test_at(i_.test, tv[0], 1) if len(tv) == 1 else None
+                            okz = z is True and o1 is False
+                            ctx.ob(
+                                f"{dec}.terminator:on-zero",
+                                okz,
+                                "" if okz else f"the run loop ends on `{unparse(i_.test)}`: the stream terminator is a zero count (true at 0: {z}, at 1: {o1}), so either the first run already ends the picture or a zero count is decoded as a run",
+                                file=rel,
+                                line=i_.lineno,
+                                props=["C17", "C19"],
+                            )
                             ctx.ob(
                                 f"{dec}.terminator",
                                 ok_c,
@@ -1068,6 +1080,60 @@ def d7(ctx: Ctx):
                 p = par.get(id(p))
             okg = tests and tests[0] == "not ignore_header_errors"
             ctx.ob(f"maxtoppm:return-false@{n.lineno - cf.lineno}", bool(okg), "" if okg else f"`return False` is guarded by {tests[:1]}, not by `not ignore_header_errors`", file=DECODERS["maxtoppm"], line=n.lineno)
+
+
+VEF_TYPES = {0: (320, 200, 16, 80, 8), 1: (640, 200, 4, 80, 7), 3: (320, 200, 4, 40, 6), 4: (640, 200, 2, 40, 5)}
+
+
+@rule("D12", "VEF-TYPES: the VEF type byte selects the documented geometry; squashed records use the 128 threshold", ["C16", "C17", "C18"], floor=5)
+def d12(ctx: Ctx):
+    D = decoderfacts(ctx)
+    st = D.fn("veftopng", "start")
+    rel = DECODERS["veftopng"]
+    found: Dict[int, Tuple] = {}
+    for n in ast.walk(st):
+        if isinstance(n, ast.If) and isinstance(n.test, ast.Compare) and len(n.test.ops) == 1 and isinstance(n.test.left, ast.Subscript) and isinstance(n.test.left.slice, ast.Constant) and n.test.left.slice.value == 1 and isinstance(n.test.comparators[0], ast.Constant):
+            k = n.test.comparators[0].value
+            vals = {}
+            for s_ in n.body:
+                if isinstance(s_, ast.Assign) and isinstance(s_.targets[0], ast.Name) and isinstance(s_.value, ast.Constant):
+                    vals[s_.targets[0].id] = s_.value.value
+            ints = tuple(v for v in vals.values() if isinstance(v, int))
+            if len(ints) == 5:
+                eq = isinstance(n.test.ops[0], ast.Eq)
+                found[k] = (ints, eq, n.lineno)
+    ctx.need(len(found) >= 4, "veftopng.types", f"only {len(found)} type branches recognised")
+    for k, want in VEF_TYPES.items():
+        got = found.get(k)
+        ok = got is not None and got[1] and sorted(got[0]) == sorted(want)
+        ctx.ob(f"veftopng.type{k}", ok, "" if ok else f"VEF type byte {k} selects {got[0] if got else None} (test is equality: {got[1] if got else None}); documented: width/height/colours/record length/screen type = {want}", file=rel, line=got[2] if got else st.lineno, props=["C16", "C18"])
+    # palette = bytes 2..17, image data from byte 18
+    from .pyast import ast_contains as _ac
+
+    okp = _ac(st, "$d[2:18]") and _ac(st, "$d[18:]")
+    ctx.ob("veftopng.layout", okp, "" if okp else "palette / pixel data are no longer taken from bytes 2..17 / 18..", file=rel, line=st.lineno, props=["C16"])
+    okq = _ac(st, "$d[0] == 128")
+    ctx.ob("veftopng.squash-flag", okq, "" if okq else "the squashed flag is no longer `data[0] == 128`", file=rel, line=st.lineno, props=["C17"])
+    un = D.fn("veftopng", "unsquash")
+    ifs = [n for n in ast.walk(un) if isinstance(n, ast.If) and isinstance(n.test, ast.Compare) and isinstance(n.test.comparators[0], ast.Constant)]
+    ctx.need(ifs, "unsquash", "repeat/literal split not found")
+    t = ifs[0].test
+    okt = isinstance(t.ops[0], ast.Gt) and t.comparators[0].value == 128 and bool(ifs[0].orelse)
+    ctx.ob("unsquash.threshold", okt, "" if okt else f"repeat groups are recognised by `{unparse(t)}`; the format uses count > 128 for a repeat (count - 128 copies) and count <= 128 for literals", file=rel, line=ifs[0].lineno, props=["C17"])
+    subs = [n for n in ast.walk(ifs[0]) if isinstance(n, ast.AugAssign) and isinstance(n.op, ast.Sub) and isinstance(n.value, ast.Constant) and n.value.value == 128]
+    ctx.ob("unsquash.minus128", bool(subs), "" if subs else "the repeat count is not reduced by 128", file=rel, line=ifs[0].lineno, props=["C17"])
+    whiles = [n for n in ast.walk(ifs[0]) if isinstance(n, ast.While)]
+    okw = len(whiles) >= 2
+    for w in whiles:
+        tt = w.test
+        if isinstance(tt, ast.Compare) and isinstance(tt.comparators[0], ast.Constant) and tt.comparators[0].value == 0:
+            okw = okw and isinstance(tt.ops[0], ast.Gt)
+        elif isinstance(tt, ast.Compare) and isinstance(tt.comparators[0], ast.Name):
+            okw = okw and isinstance(tt.ops[0], ast.Lt)
+    ctx.ob("unsquash.loop-bounds", okw, "" if okw else "the repeat / literal loops no longer run exactly `count` times", file=rel, line=un.lineno, props=["C17"])
+    lenp = un.args.args[-1].arg if un.args.args else "?"
+    trunc = _ac(un, f"$d[0:{lenp}]") or _ac(un, f"$d[:{lenp}]")
+    ctx.ob("unsquash.truncate", trunc, "" if trunc else "records are no longer truncated to the nominal record length", file=rel, line=un.lineno, props=["C17"])
 
 
 @rule("D8", "LOOP-PROGRESS: every while loop progresses or contains a read that fails at end of file", ["C19", "C15"], floor=4)
